@@ -73,3 +73,41 @@ def offpolicy(tier: str, prop: str) -> list[dict]:
     else:
         out = collect + full[:1] + full[3:4]
     return out
+
+
+def protocol(tier: str, prop: str) -> list[dict]:
+    """Wrapper-stack programs (innermost wrapper first) over SimMDP variants."""
+    TL, ID = ["TimeLimit"], ["Identity"]
+    CA, RA, RA2, TA = ["ClipAction"], ["RescaleAction", -2.0, 2.0], ["RescaleAction", 0.0, 4.0], ["TransformAction"]
+    CO, RO, FO, TO = ["ClipObservation"], ["RescaleObservation", 0.0, 1.0], ["FlattenObservation"], ["TransformObservation"]
+    CR, TR = ["ClipReward", -1.0, 1.0], ["TransformReward"]
+    d = dict(S=5, masked=False, obs_kind="box", D=3)
+    base = [
+        dict(d, kind="discrete", dims=[3], masked=True, stack=[]),
+        dict(d, kind="discrete", dims=[3], masked=True, stack=[TL]),
+        dict(d, kind="box", dims=[2], stack=[TL, RA, CA]),
+        dict(d, kind="boxscalar", dims=[4], stack=[RA2, TL]),
+        dict(d, kind="box", dims=[2, 2], stack=[CA, TL, TO]),
+        dict(d, kind="discrete", dims=[2], obs_kind="dict", stack=[FO, TL]),
+        dict(d, kind="multidiscrete", dims=[2, 2], masked=True, obs_kind="tuple", stack=[TL, FO, TO]),
+        dict(d, kind="discrete", dims=[4], masked=True, stack=[TA, TL, ID]),
+        dict(d, kind="box", dims=[2], stack=[TA, RA, TL]),
+        dict(d, kind="discrete", dims=[2], stack=[TL, TL]),
+        dict(d, kind="multibinary", dims=[2], masked=True, stack=[CO, RO, TL]),
+        dict(d, kind="discrete", dims=[3], stack=[TR, TL]),
+        dict(d, kind="box", dims=[2], stack=[TL, CR, RA]),
+        dict(d, kind="discrete", dims=[2], obs_kind="discrete", stack=[ID, TL, FO]),
+        dict(d, kind="boxscalar", dims=[2], stack=[TR, CR, TL, TO]),
+        dict(d, kind="discrete", dims=[3], S=8, masked=True, stack=[TO, CO, TL, TR]),
+    ]
+    if prop == "C12":
+        base = [base[i] for i in (1, 2, 4, 6, 8, 10)]
+    if tier == "quick":
+        return base
+    extra = [
+        dict(d, kind="box", dims=[4], stack=[RA, RA2, TL, CA]),
+        dict(d, kind="discrete", dims=[2], S=3, stack=[TL, ID, TL, ID]),
+        dict(d, kind="multidiscrete", dims=[3, 2], masked=True, stack=[RO, TO, TL]),
+        dict(d, kind="box", dims=[2, 2], obs_kind="dict", stack=[FO, TO, TL, CR]),
+    ]
+    return base + extra
